@@ -23,6 +23,7 @@ type memReader struct {
 	nread   int
 	reqs    *T
 	eofData *T
+	concLen bool
 }
 
 var models = map[*Loc]*memReader{}
@@ -470,8 +471,17 @@ func timeStub(m *Machine, fn *ssa.Function, args []Value) (Value, int) {
 				}
 				return s
 			case *types.Pointer:
-				// *time.Location: an opaque location object identified by an uninterpreted id
-				l := &Loc{typ: u.Elem(), v: App("uf_time_"+tag+path, 64, as...)}
+				// *time.Location: an opaque location object; the same arguments give the same object
+				key := "uf_time_" + tag + path
+				for _, a := range as {
+					key += fmt.Sprintf(",%d", a.id)
+				}
+				if l, ok := m.opaqueLocs[key]; ok {
+					return Ptr{L: l}
+				}
+				idt := App("uf_time_"+tag+path, 64, as...)
+				l := &Loc{typ: u.Elem(), v: idt, opaqueID: idt}
+				m.opaqueLocs[key] = l
 				return Ptr{L: l}
 			case *types.Basic:
 				if w, _, ok := intWidth(t); ok {
@@ -599,9 +609,29 @@ func registerIntrinsics(m *Machine) {
 		return done(BV(64, uint64(m.part)))
 	}
 	I["zzAssume"] = func(m *Machine, fr *Frame, a []Value, call ssa.Instruction, d bool) (Value, int) {
-		if !m.decide(a[0].(*T)) {
+		c := a[0].(*T)
+		if c.IsC {
+			if c.C == 0 {
+				panic(pathEnd{"assume"})
+			}
+			return done(nil)
+		}
+		if v, ok := m.assumed[c]; ok || c.Op == "not" {
+			if !ok {
+				v = m.decide(c)
+			}
+			if !v {
+				panic(pathEnd{"assume"})
+			}
+			return done(nil)
+		}
+		// no fork: the path simply continues under c (one feasibility query)
+		if m.sol.CheckWith(c) == "unsat" {
 			panic(pathEnd{"assume"})
 		}
+		m.sol.Assert(c)
+		m.setAssumed(c, true)
+		m.pushDecision(c)
 		return done(nil)
 	}
 	I["zzAssert"] = func(m *Machine, fr *Frame, a []Value, call ssa.Instruction, d bool) (Value, int) {
@@ -651,12 +681,21 @@ func registerIntrinsics(m *Machine) {
 				r.name = goString(a[1])
 			}
 			if trunc {
-				L := Var(r.name+"_len", 64)
+				// the length is a narrow variable zero-extended to 64 bits (cheaper bit-blasting of the index arithmetic)
+				lw := 64
+				if s.Len.IsC && s.Len.C < 256 {
+					lw = 8
+				} else if s.Len.IsC && s.Len.C < 65536 {
+					lw = 16
+				}
+				Lv := Var(r.name+"_len", lw)
+				L := ZExt(64, Lv)
 				F := Var(r.name+"_fail", 64)
-				m.addInput(L)
+				m.addInput(Lv)
 				m.addInput(F)
 				m.sol.Assert(Cmp("bvule", L, s.Len))
 				r.L = L
+				r.concLen = true
 				r.fail = Not(Eq(F, BV(64, 0)))
 			}
 			if chunked {
@@ -692,6 +731,14 @@ func registerIntrinsics(m *Machine) {
 		r := models[a[0].(Ptr).L]
 		p := a[1].(Slice)
 		addReq(m, r, p.Len)
+		if !r.L.IsC && r.concLen {
+			// truncated skeleton streams: case split over the truncation point at the first read, so that the
+			// bytes delivered are the skeleton's concrete bytes (a symbolic copy length would make every byte conditional)
+			lv := m.conc(r.L, 1<<17)
+			old := r.L
+			r.L = BV(64, lv)
+			m.trail = append(m.trail, func() { r.L = old })
+		}
 		if m.decide(Eq(p.Len, BV(64, 0))) {
 			return done(Tuple{BV(64, 0), Iface{}})
 		}
@@ -846,6 +893,16 @@ func registerIntrinsics(m *Machine) {
 			// bytes >= 0x80 take the unicode path in the real function; they are left unchanged here (stated assumption)
 		}
 		return done(r)
+	}
+	I["zzSameZone"] = func(m *Machine, fr *Frame, a []Value, call ssa.Instruction, d bool) (Value, int) {
+		x, y := a[0].(Ptr), a[1].(Ptr)
+		if x.Nil || y.Nil {
+			return done(BoolC(x.Nil && y.Nil))
+		}
+		if x.L != nil && y.L != nil && x.L.opaqueID != nil && y.L.opaqueID != nil {
+			return done(Eq(x.L.opaqueID, y.L.opaqueID))
+		}
+		return done(BoolC(x == y))
 	}
 	I["zzF32bits"] = func(m *Machine, fr *Frame, a []Value, call ssa.Instruction, d bool) (Value, int) { return done(a[0]) }
 	I["zzF64bits"] = func(m *Machine, fr *Frame, a []Value, call ssa.Instruction, d bool) (Value, int) { return done(a[0]) }
